@@ -97,6 +97,7 @@ def record(ctx, I):
     from ..interp import Env, RaiseSig
     from ..values import keyof
     from .. import alg
+    from ..alg import E
     ad = cv.find_method("as_dict")
     if ad is None:
         ctx.ob("C19.record", "as_dict agrees with attribute access", False, "DefaultParams.as_dict is gone", loc)
@@ -110,13 +111,22 @@ def record(ctx, I):
             over[name] = alg.psym(f"v_{name}")
         elif k == "int":
             over[name] = int(v) + 17
+        elif k == "tuple" and v and kind_of(v[-1]) == "enum":
+            # all members of the enumeration, NOT in declaration order (a record must keep the order it was given)
+            ms = list(v[-1].cls.members.values())
+            over[name] = tuple(reversed(ms))
         elif k == "tuple":
-            over[name] = tuple(alg.psym(f"v_{name}_{i}") if kind_of(x) == "float" else x for i, x in enumerate(v)) + ((v[-1],) if kind_of(v[-1]) == "enum" else ())
+            over[name] = tuple(alg.psym(f"v_{name}_{i}") if kind_of(x) == "float" else x for i, x in enumerate(v))
         elif k == "enum":
             others = [m for m in v.cls.members.values() if m != v]
             over[name] = others[-1] if others else v
         else:
             over[name] = v
+    # parallel tuples get the same length (one fraction per phase)
+    n_enum = max((len(v_) for v_ in over.values() if isinstance(v_, tuple) and v_ and kind_of(v_[-1]) == "enum"), default=0)
+    for name, v_ in list(over.items()):
+        if isinstance(v_, tuple) and v_ and kind_of(v_[-1]) != "enum" and n_enum and len(v_) != n_enum and all(isinstance(x, E) for x in v_):
+            over[name] = tuple(alg.psym(f"v_{name}_{i}") for i in range(n_enum))
     for label, kwargs in (("defaults", {}), ("every field overridden", over)):
         try:
             rec = I.call(cv, (), dict(kwargs))
@@ -133,6 +143,8 @@ def record(ctx, I):
             for name, *_ in fields:
                 if name in d and keyof(d[name]) != keyof(rec.attrs[name]):
                     bad.append(f"as_dict()[{name!r}] = {d[name]!r} but .{name} = {rec.attrs[name]!r}")
+                if name in kwargs and keyof(rec.attrs[name]) != keyof(kwargs[name]):
+                    bad.append(f"the record was declared with {name} = {kwargs[name]!r} but holds {rec.attrs[name]!r}")
             if d is rec.attrs:
                 bad.append("returns the record's own storage (mutating the dictionary would mutate the frozen record)")
             try:
